@@ -4,6 +4,7 @@
 #pragma once
 #include <cstdio>
 #include <cstdlib>
+#include <unistd.h>
 #include <string>
 #include <vector>
 #include <algorithm>
@@ -26,6 +27,9 @@ public:
   void ev(int slot, std::string body) {
     unsigned long t = tick();
     if (slot < 0 || slot > MAXT) slot = MAXT;
+    // an execution that logs millions of events between two flushes is not making progress (a livelock that keeps
+    // re-executing); stop before the log exhausts memory.  Exit status 124 is what the drivers read as "did not finish".
+    if (buf[slot].size() > 3000000) { std::fputs("vh: runaway execution (event log overflow)\n", stderr); _exit(124); }
     buf[slot].push_back(Ev{t, std::move(body)});
   }
   // write everything collected so far in ticket order
